@@ -3,20 +3,124 @@
 Tie: T (Gen/KmersPyx.v regenerated from kmers.pyx) + B (this file): the compiled
 extension, the generated model and the extracted specification are run on the same
 inputs.  The specification determines the output, so `impl != spec` is a violation
-with the input as replay; `impl == spec != model` is a broken correspondence."""
+with the input as replay; `impl == spec != model` is a broken correspondence.
+
+Coverage table of the audit (item of the property text -> kind:stream that drives the IMPLEMENTATION and the
+predicate checked there; "audit:" = added by the coverage audit, the rest existed before):
+
+  item                                                 driven by (kind: stream)                  predicate checked on the implementation
+  base-4 code, first nucleotide most significant       enc: exhaustive-kmers, random             == Coq spec_encode
+  inverse, dec -> enc                                  dec: all indices k<=6, boundary, random   kmer_to_index(index_to_kmer(i,k)) == i
+  inverse, enc -> dec                                  only through the spec                     audit: enc, index_to_kmer(kmer_to_index(b),k) == upper(b), same
+                                                                                                 for the rc index, on every enc case
+  case ignored                                         enc: first letter lower, random mixed     == spec; audit: enc(b) == enc(upper/lower/swapcase b) directly;
+                                                                                                 allcase-kmers (all 8^k patterns k<=4), lower-and-alternating k<=6
+  other byte / longer than 32 rejected                 enc: bytes<=2, random, lengths <=40       error iff spec rejects; audit: long (enc-long, 33..70000 bytes
+                                                                                                 of pure nucleotides), forms/text (non-ASCII str, Seq of bytes)
+  revcomp: involution, case kept, others mirrored      rc: k-mers k<=6, bytes<=2, random <=80    == spec_revcomp, rc(rc(b)) == b; audit: k=7 (8 thorough), long
+                                                                                                 (rc-long, 81..2^17+1 bytes; beyond 4096 bytes by the predicate
+                                                                                                 alone: the extracted functions are quadratic there)
+  index of revcomp == kmer_to_index_rc                 only through the spec                     audit: enc, kmer_to_index_rc(b) == kmer_to_index(revcomp(b))
+  all k-mers k<=8                                      enc: k<=7 quick, 8 thorough only          audit: k=8 (upper case) also in the quick tier
+  all byte strings of length<=2                        enc, rc                                   as above; audit: now also through gambit.kmers.kmer_to_index_rc
+  boundary k-mers every k<=32; random; index<2^64      enc, dec, rc                              as above; audit: the same boundaries through forms / decforms
+  gambit.kmers.kmer_to_index (bytes, bytearray)        enc                                       == extension
+  gambit.kmers.kmer_to_index_rc                        NOT called before                         audit: enc (bytes, bytearray == extension), forms, text, long
+  gambit.kmers.index_to_kmer: int, uint64, own dtype   dec                                       == extension
+  gambit.seq.revcomp (bytes)                           rc                                        as above
+  gambit.kmers.revcomp, _cython.kmers.revcomp          NOT called before                         audit: forms, long (same predicate under every public name)
+  str / Seq(str) / Seq(bytes) / bytes subclass,        NOT driven before                         audit: forms (value or rejection exactly as for the bytes), text
+    kmer= / seq= keyword                                                                         (code points that are not bytes: must be rejected)
+  memoryview, NumPy uint8 (copy / read-only), array B, NOT driven before                         audit: forms -- kmer_to_index, kmer_to_index_rc, revcomp (+ twice)
+    strided, negative stride, 2-D column, a caller's                                             judged against the spec of the bytes the view exposes; a valid k-mer
+    bytearray / array reused over several calls                                                  refused in one of these forms counts as a violation
+  signed-char buffers (int8, array b)                  outside the domain (refused today)        audit: forms, lenient -- an error or the right value
+  index / k as any NumPy integer scalar, 0-d array,    only uint64 + own dtype, k always int     audit: decforms (== base-4 digits == Coq spec_decode, and back)
+    element of byte-swapped / strided array, keywords
+  KmerMatch.kmer() / kmer_index(), both strands,       NOT driven (C01 drives find_kmers)        audit: match (== spec of the window / of its reverse complement)
+    str / bytes / bytearray / Seq sequences
+  KmerAccumulator.add_kmer (Set / Array), repeats,     NOT driven before                         audit: acc (signature and members == set of spec indices of the
+    case variants, invalid members                                                               valid k-mers)
+New kinds judge with the property predicate written out in Python (_py_enc, _py_rc); whenever the model driver runs
+the Coq specification is evaluated on the same bytes and any disagreement is reported as a broken obligation.  The
+translated kmers.pyx model knows byte lists only, so the tie is not re-checked per container form (enc/rc/dec do that).
+Not driven (stated, not hidden): None as k-mer (Cython takes None for a memoryview argument and returns 0 -- not a
+k-mer, no alarm), buffers of 2^31 bytes or more (C `int` length), float / bool indices, concurrent callers.
+"""
 import itertools
 
 PROP = 'C07'
 RULE = ('enc: byte strings -> kmer_to_index / kmer_to_index_rc (value or ValueError); dec: (index,k) -> '
         'index_to_kmer and back; rc: byte strings -> revcomp.  non-trivial: enc with a valid k-mer of '
         'length >= 2 or an invalid byte not in first position; dec with k >= 2; rc containing a nucleotide '
-        'and a non-nucleotide byte or length >= 2')
+        'and a non-nucleotide byte or length >= 2.  '
+        'forms: one byte string handed over as bytes/bytearray/memoryview/NumPy uint8 (contiguous, strided, negative '
+        'stride, 2-D column)/array(B)/str/Bio.Seq/keyword argument/reused bytearray through every public name of '
+        'kmer_to_index, kmer_to_index_rc and revcomp (non-trivial like enc).  decforms: (index,k) with index and k as '
+        'NumPy integer scalars of every width that holds them, 0-d array, element of a byte-swapped array, keyword '
+        'arguments, through gambit.kmers.index_to_kmer and the extension (non-trivial: k >= 2).  match: KmerMatch.kmer() '
+        '/ kmer_index() on a random window of a str/bytes/bytearray/Seq sequence, forward and reverse (non-trivial: '
+        'k >= 2).  acc: KmerAccumulator.add_kmer over a list of k-mers, Set and Array accumulators (non-trivial: >= 2 '
+        'distinct valid k-mers).  enc-long / rc-long: inputs of 41..2^17+1 bytes (rc-long beyond 4096 bytes is judged '
+        'by the property predicate alone)')
 TRUSTED = ['tools/pyx2v.py (Cython subset -> Gallina; C integer semantics as documented in its header)',
            'gcc-compiled extension = semantics of kmers.pyx (the .so is exercised by the correspondence run)']
 ASSUMPTIONS = ['k-mers are passed as bytes-like objects; `int k` arguments fit a C int',
                'CPython buffer protocol delivers the bytes unchanged to the Cython memoryview']
 
 NUC = b'ACGT'
+NUCS = b'ACGTacgt'
+_COMP = bytes.maketrans(b'ACGTacgt', b'TGCAtgca')
+REJ = 'rejected'
+
+
+def _py_enc(b):
+	"""the property's encoding, written out in Python (cross-checked against the Coq spec whenever the model runs):
+	base-4 code, first nucleotide most significant, case ignored; REJ for any other byte or more than 32 bytes"""
+	if len(b) > 32:
+		return REJ
+	v = 0
+	for c in b:
+		d = NUCS.find(bytes([c]))
+		if d < 0:
+			return REJ
+		v = v * 4 + d % 4
+	return v
+
+
+def _py_rc(b):
+	"""the property's reverse complement: A<->T, C<->G keeping case, every other byte unchanged, mirrored"""
+	return bytes(b).translate(_COMP)[::-1]
+
+
+def _call(fn, *a, **kw):
+	"""canonical outcome of an implementation call: the value, or ('error', exception type name)"""
+	try:
+		return fn(*a, **kw)
+	except Exception as e:  # noqa -- any exception is a rejection; which one is not part of the property
+		return ('error', type(e).__name__)
+
+
+def _is_err(r):
+	return isinstance(r, tuple) and len(r) == 2 and r[0] == 'error'
+
+
+def _canon_int(r):
+	if _is_err(r):
+		return REJ
+	try:
+		import operator
+		return operator.index(r)
+	except TypeError:
+		return ('not an integer', repr(r))
+
+
+def _canon_bytes(r):
+	if _is_err(r):
+		return REJ
+	if isinstance(r, (bytes, bytearray, memoryview)):
+		return bytes(r)
+	return ('not bytes', repr(r))
 
 
 def setup(ctx):
@@ -44,6 +148,7 @@ def _res(v):
 def k_enc(ctx, cases):
 	import gambit.kmers as gk
 	from gambit._cython import kmers as ck
+	from gambit.seq import revcomp as grevcomp
 	reqs = []
 	for h in cases:
 		b = bytes.fromhex(h)
@@ -64,6 +169,34 @@ def k_enc(ctx, cases):
 		if w1 != i1 or w1b != i1:
 			ctx.violation('enc', h, f'gambit.kmers.kmer_to_index differs between wrapper/bytes/bytearray on {b!r}',
 			              ext=i1, wrapper=w1, wrapper_bytearray=w1b)
+		# (audit) gambit.kmers.kmer_to_index_rc is named in "observe at" but was never called
+		w2 = _impl_enc(gk.kmer_to_index_rc, b)
+		w2b = _impl_enc(gk.kmer_to_index_rc, bytearray(b))
+		if w2 != i2 or w2b != i2:
+			ctx.violation('enc', h, f'gambit.kmers.kmer_to_index_rc differs between wrapper/bytes/bytearray on {b!r}',
+			              ext=i2, wrapper=w2, wrapper_bytearray=w2b)
+		# (audit) the clauses of the property evaluated directly on the implementation (they hold whether or not the
+		# model driver runs): accepted iff a k-mer of <= 32 nucleotides, case ignored, enc -> dec inverse, and
+		# index of the reverse complement == index after reverse-complementing first
+		if valid != isinstance(i1, int) or valid != isinstance(i2, int):
+			ctx.violation('enc', h, f'{b!r} is {"a valid k-mer" if valid else "not a k-mer of <= 32 nucleotides"} but kmer_to_index '
+			              f'gives {i1} and kmer_to_index_rc gives {i2}', impl=i1, impl_rc=i2, spec='value' if valid else 'ValueError')
+		for nm, b2 in (('upper', b.upper()), ('lower', b.lower()), ('swapcase', b.swapcase())):
+			if b2 != b:
+				c1, c2 = _impl_enc(ck.kmer_to_index, b2), _impl_enc(ck.kmer_to_index_rc, b2)
+				if c1 != i1 or c2 != i2:
+					ctx.violation('enc', h, f'case is not ignored: {b!r} -> {i1} / rc {i2}, but its {nm} form {b2!r} -> {c1} / rc {c2}',
+					              impl=[i1, i2], other_case=[c1, c2])
+					break
+		rb = grevcomp(b)
+		via = _impl_enc(ck.kmer_to_index, rb)
+		if via != i2:
+			ctx.violation('enc', h, f'kmer_to_index_rc({b!r}) = {i2} but kmer_to_index(revcomp(..) = {rb!r}) = {via}', impl=i2, via_revcomp=via)
+		if valid and isinstance(i1, int) and isinstance(i2, int):
+			d1, d2 = ck.index_to_kmer(i1, len(b)), ck.index_to_kmer(i2, len(b))
+			if d1 != b.upper() or d2 != rb.upper():
+				ctx.violation('enc', h, f'not inverse: index_to_kmer(kmer_to_index({b!r}) = {i1}, {len(b)}) = {d1!r}; '
+				              f'index_to_kmer(kmer_to_index_rc = {i2}) = {d2!r}, revcomp = {rb!r}', impl=[i1, i2], back=[d1, d2])
 		if ans is None:
 			continue
 		m1, m2 = _res(ans[4 * i]), _res(ans[4 * i + 1])
@@ -166,7 +299,357 @@ def k_rc(ctx, cases):
 			              f'(the compiled extension returns {r!r})', impl=r, spec=s, model=m)
 
 
-KINDS = {'enc': k_enc, 'dec': k_dec, 'rc': k_rc}
+# ------------------------------------------------------------------------------------------------------
+# (audit) input forms: the same byte string through every container type / call form / public name
+
+
+def _filler(b, j):
+	"""a nucleotide that differs from the neighbouring real byte: a reader that ignores strides or offsets gets a
+	valid but different k-mer, not an error"""
+	c = b[j % len(b)] if b else 65
+	d = NUCS.find(bytes([c]))
+	return NUC[(d + 1 + j) % 4] if d >= 0 else NUC[j % 4]
+
+
+def _buffer_forms(b, stride, off):
+	"""(name, object, strict) -- objects exposing exactly the bytes `b` through the buffer protocol.  strict=False:
+	element type is not `unsigned char`; the unchanged code rejects those, so only 'an error or the right value'."""
+	import array
+	import numpy as np
+	n = len(b)
+	big = bytearray(_filler(b, j) for j in range(off + n * stride + 3))
+	for i in range(n):
+		big[off + i * stride] = b[i]
+	rev = bytes(reversed(b))
+	mat = np.frombuffer(bytes(big[off:off + n * stride]), dtype=np.uint8).reshape(n, stride) if n else np.zeros((0, stride), dtype=np.uint8)
+	ro = np.frombuffer(b, dtype=np.uint8)
+	signed = [x - 256 if x > 127 else x for x in b]
+	return [
+		('bytes', bytes(b), True),
+		('bytearray', bytearray(b), True),
+		('memoryview', memoryview(b), True),
+		('memoryview-of-bytearray', memoryview(bytearray(b)), True),
+		('numpy-uint8', np.array(list(b), dtype=np.uint8), True),
+		('numpy-uint8-readonly', ro, True),
+		('array-B', array.array('B', b), True),
+		('numpy-strided', np.frombuffer(big, dtype=np.uint8)[off:off + n * stride:stride], True),
+		('memoryview-strided', memoryview(big)[off:off + n * stride:stride], True),
+		('numpy-negative-stride', np.frombuffer(rev, dtype=np.uint8)[::-1], True),
+		('memoryview-negative-stride', memoryview(rev)[::-1], True),
+		('numpy-2d-column', mat[:, 0], True),
+		('numpy-int8', np.array(signed, dtype=np.int8), False),
+		('array-b', array.array('b', signed), False),
+	]
+
+
+def _seq_forms(b):
+	"""(name, object, content) for the DNASeq types gambit.kmers.kmer_to_index[_rc] document: str, bytes, bytearray,
+	Bio.Seq.  `content` is the byte string the property speaks about, or None when the text is not a byte string of
+	nucleotide letters at all (non-ASCII str) and must therefore be rejected"""
+	from Bio.Seq import Seq
+
+	class B2(bytes):
+		pass
+
+	out = [('bytes', bytes(b), b), ('bytearray', bytearray(b), b), ('bytes-subclass', B2(b), b), ('Seq-of-bytes', Seq(bytes(b)), b)]
+	if all(c < 128 for c in b):
+		t = b.decode('ascii')
+		out += [('str', t, b), ('Seq-of-str', Seq(t), b)]
+	else:
+		t = b.decode('latin-1')
+		out += [('str-non-ascii', t, None)]
+	return out
+
+
+def k_forms(ctx, cases):
+	import gambit.kmers as gk
+	import gambit.seq as gs
+	from gambit._cython import kmers as ck
+	ans = None
+	if ctx.model_ok:
+		bs = [bytes.fromhex(c['kmer']) for c in cases]
+		a1 = ctx.model([x for b in bs for x in ((711, b), (713, b))])
+		a2 = ctx.model([(711, bytes(a1[2 * i + 1])) for i in range(len(bs))])
+		ans = [(a1[2 * i][0] if a1[2 * i] else REJ, bytes(a1[2 * i + 1]), a2[i][0] if a2[i] else REJ) for i in range(len(bs))]
+	encs = [('_cython.kmers.kmer_to_index', ck.kmer_to_index, 0), ('_cython.kmers.kmer_to_index_rc', ck.kmer_to_index_rc, 1)]
+	wraps = [('gambit.kmers.kmer_to_index', gk.kmer_to_index, 0), ('gambit.kmers.kmer_to_index_rc', gk.kmer_to_index_rc, 1)]
+	rcs = [('gambit.seq.revcomp', gs.revcomp), ('gambit.kmers.revcomp', gk.revcomp), ('_cython.kmers.revcomp', ck.revcomp)]
+	for i, c in enumerate(cases):
+		b = bytes.fromhex(c['kmer'])
+		stride, off = c.get('stride', 2), c.get('off', 1)
+		e_rc = _py_rc(b)
+		exp = (_py_enc(b), _py_enc(e_rc))
+		valid = exp[0] != REJ
+		ctx.case(c, nontrivial=len(b) >= 2 and (valid or b[0] in NUCS))
+		if ans is not None and ans[i] != (exp[0], e_rc, exp[1]):
+			# the Python rendering of the predicate and the Coq specification disagree: a harness defect, not a finding
+			ctx.broke('harness predicate vs Coq specification (forms)', f'input {b!r}: python={(exp[0], e_rc, exp[1])!r} coq={ans[i]!r}')
+			continue
+		bad = None
+
+		def judge(api, form, got, want, strict=True):
+			nonlocal bad
+			if bad is None and got != want and (strict or got != REJ):
+				bad = f'{api}({form} holding {b!r}) = {got!r}, the property says {want!r}'
+
+		for form, obj, strict in _buffer_forms(b, stride, off):
+			ctx.count('stream:form:' + form)
+			for api, fn, j in encs:
+				judge(api, form, _canon_int(_call(fn, obj)), exp[j], strict)
+			for api, fn in rcs:
+				r = _canon_bytes(_call(fn, obj))
+				judge(api, form, r, e_rc, strict)
+				if isinstance(r, bytes) and r == e_rc:
+					judge(api + ' twice', form, _canon_bytes(_call(fn, r)), b)
+		for form, obj, content in _seq_forms(b):
+			ctx.count('stream:form:' + form)
+			for api, fn, j in wraps:
+				judge(api, form, _canon_int(_call(fn, obj)), exp[j] if content is not None else REJ)
+		# keyword call forms
+		ctx.count('stream:form:keyword')
+		judge('_cython.kmers.kmer_to_index', 'kmer=bytes', _canon_int(_call(ck.kmer_to_index, kmer=b)), exp[0])
+		judge('_cython.kmers.kmer_to_index_rc', 'kmer=bytes', _canon_int(_call(ck.kmer_to_index_rc, kmer=b)), exp[1])
+		judge('gambit.kmers.kmer_to_index', 'kmer=bytearray', _canon_int(_call(gk.kmer_to_index, kmer=bytearray(b))), exp[0])
+		judge('gambit.kmers.kmer_to_index_rc', 'kmer=bytes', _canon_int(_call(gk.kmer_to_index_rc, kmer=b)), exp[1])
+		judge('gambit.seq.revcomp', 'seq=bytes', _canon_bytes(_call(gs.revcomp, seq=b)), e_rc)
+		# one caller-owned mutable buffer handed to every function in turn, twice: each answer is judged against the
+		# ORIGINAL content (a function that rewrites its argument shows up in the next answer)
+		ctx.count('stream:form:reused-bytearray')
+		ba = bytearray(b)
+		arr = __import__('numpy').array(list(b), dtype='uint8')
+		for rnd in (1, 2):
+			for obj, nm in ((ba, 'reused bytearray'), (arr, 'reused NumPy array')):
+				judge('gambit.seq.revcomp', f'{nm}, round {rnd}', _canon_bytes(_call(gs.revcomp, obj)), e_rc)
+				judge('_cython.kmers.kmer_to_index', f'{nm}, round {rnd}', _canon_int(_call(ck.kmer_to_index, obj)), exp[0])
+				judge('_cython.kmers.kmer_to_index_rc', f'{nm}, round {rnd}', _canon_int(_call(ck.kmer_to_index_rc, obj)), exp[1])
+			judge('gambit.kmers.kmer_to_index', f'reused bytearray, round {rnd}', _canon_int(_call(gk.kmer_to_index, ba)), exp[0])
+			judge('gambit.kmers.kmer_to_index_rc', f'reused bytearray, round {rnd}', _canon_int(_call(gk.kmer_to_index_rc, ba)), exp[1])
+		if bad:
+			ctx.violation('forms', c, bad, spec=dict(index=exp[0], revcomp=e_rc, index_rc=exp[1]))
+
+
+def k_text(ctx, cases):
+	"""str k-mers that are not byte strings of nucleotide letters (non-ASCII code points whose low byte, upper-case
+	form or look is a nucleotide): outside the Coq model (no byte string to send); judged by the predicate alone --
+	rejected with an error, never encoded"""
+	import gambit.kmers as gk
+	from Bio.Seq import Seq
+	for c in cases:
+		t = ''.join(chr(x) for x in c['text'])
+		pure = all(x < 128 and x in NUCS for x in c['text'])
+		ctx.case(c, nontrivial=len(t) >= 2)
+		want = _py_enc(t.encode('ascii')) if pure else REJ
+		want_rc = _py_enc(_py_rc(t.encode('ascii'))) if pure else REJ
+		forms = [('str', t)]
+		try:
+			forms.append(('Seq-of-str', Seq(t)))
+		except Exception:  # noqa -- Biopython itself refuses non-ASCII text: nothing of gambit to observe
+			pass
+		for form, obj in forms:
+			ctx.count('stream:text:' + form)
+			g1 = _canon_int(_call(gk.kmer_to_index, obj))
+			g2 = _canon_int(_call(gk.kmer_to_index_rc, obj))
+			if (g1, g2) != (want, want_rc):
+				ctx.violation('text', c, f'gambit.kmers.kmer_to_index / _rc ({form} {t!a}) = {g1!r} / {g2!r}, the property says '
+				              f'{want!r} / {want_rc!r}', impl=[g1, g2], spec=[want, want_rc])
+				break
+
+
+# ------------------------------------------------------------------------------------------------------
+# (audit) index_to_kmer with the index and k in every integer form, both public names, keyword arguments
+
+_INT_TYPES = ['uint8', 'int8', 'uint16', 'int16', 'uint32', 'int32', 'uint64', 'int64', 'uintp', 'intp', 'ulonglong', 'longlong']
+
+
+def _int_forms(v):
+	"""(name, object) for every NumPy integer form that represents the Python int v exactly"""
+	import numpy as np
+	out = [('int', v)]
+	for tn in _INT_TYPES:
+		ty = getattr(np, tn)
+		info = np.iinfo(ty)
+		if info.min <= v <= info.max:
+			out.append(('numpy.' + tn, ty(v)))
+	if 0 <= v < 2 ** 64:
+		out.append(('0-d uint64 array', np.array(v, dtype=np.uint64)))
+		out.append(('element of a big-endian >u8 array', np.array([v], dtype='>u8')[0]))
+		out.append(('element of a strided uint64 array', np.array([v, 0, v, 0], dtype=np.uint64)[::2][1]))
+	return out
+
+
+def k_decforms(ctx, cases):
+	import gambit.kmers as gk
+	from gambit._cython import kmers as ck
+	ans = ctx.model([(712, [idx, k]) for idx, k in cases]) if ctx.model_ok else None
+	for i, (idx, k) in enumerate(cases):
+		if not (0 <= k <= 32 and 0 <= idx < 4 ** k):
+			continue  # the property speaks about indices in range only; the dec kind ties the rest to the model
+		want = bytes(NUC[(idx >> (2 * (k - 1 - j))) & 3] for j in range(k))
+		ctx.case(dict(index=idx, k=k, forms=True), nontrivial=k >= 2)
+		if ans is not None and bytes(ans[i]) != want:
+			ctx.broke('harness predicate vs Coq specification (decforms)', f'input {(idx, k)}: python={want!r} coq={bytes(ans[i])!r}')
+			continue
+		bad = None
+		iforms, kforms = _int_forms(idx), _int_forms(k)
+		for api, fn in (('gambit.kmers.index_to_kmer', gk.index_to_kmer), ('_cython.kmers.index_to_kmer', ck.index_to_kmer)):
+			calls = [(f'{inm}, k as {knm}', (iv, kv), {}) for inm, iv in iforms for knm, kv in kforms[:1]]
+			calls += [(f'{inm}, k as {knm}', (iv, kv), {}) for inm, iv in iforms[:2] for knm, kv in kforms[1:]]
+			calls += [('index=, k= keywords', (), dict(index=idx, k=k)), ('k= keyword', (iforms[-1][1],), dict(k=kforms[-1][1])),
+			          ('k=, index= keywords reversed', (), dict(k=k, index=iforms[1 % len(iforms)][1]))]
+			for nm, a, kw in calls:
+				got = _canon_bytes(_call(fn, *a, **kw))
+				if got != want:
+					bad = f'{api}({idx} as {nm}; k={k}) = {got!r}, base-4 digits say {want!r}'
+					break
+				back = _canon_int(_call(gk.kmer_to_index, got))
+				if back != idx:
+					bad = f'gambit.kmers.kmer_to_index({api}({idx} as {nm}; k={k}) = {got!r}) = {back!r}'
+					break
+			if bad:
+				break
+		for inm, _ in iforms:
+			ctx.count('stream:decform:index as ' + inm)
+		for knm, _ in kforms:
+			ctx.count('stream:decform:k as ' + knm)
+		if bad:
+			ctx.violation('decforms', [idx, k], bad, spec=want)
+
+
+# ------------------------------------------------------------------------------------------------------
+# (audit) the wrappers through which the package itself reaches the codec
+
+
+def k_match(ctx, cases):
+	"""KmerMatch.kmer() / kmer_index(): window of a sequence, forward or reverse strand (the only caller of
+	kmer_to_index_rc in the package).  Expected values come from the harness's own slice of its own bytes."""
+	import gambit.kmers as gk
+	from Bio.Seq import Seq
+	wins = []
+	for c in cases:
+		seq = bytes.fromhex(c['seq'])
+		k, pl, pos = c['k'], c['plen'], c['pos']
+		lo = pos - (k + pl) + 1 if c['reverse'] else pos + pl
+		wins.append(seq[lo:lo + k])
+	ans = None
+	if ctx.model_ok:
+		a1 = ctx.model([(713, w) for w in wins])
+		ans = [bytes(x) for x in a1]
+	for i, c in enumerate(cases):
+		seq, w = bytes.fromhex(c['seq']), wins[i]
+		k, pl, pos, rev = c['k'], c['plen'], c['pos'], c['reverse']
+		assert len(w) == k
+		want_kmer = _py_rc(w) if rev else w
+		want_idx = _py_enc(want_kmer)
+		ctx.case(c, nontrivial=k >= 2)
+		if ans is not None and ans[i] != _py_rc(w):
+			ctx.broke('harness predicate vs Coq specification (match)', f'window {w!r}: python={_py_rc(w)!r} coq={ans[i]!r}')
+			continue
+		forms = [('bytes', seq), ('bytearray', bytearray(seq)), ('Seq-of-bytes', Seq(seq))]
+		if all(x < 128 for x in seq):
+			forms += [('str', seq.decode('ascii')), ('Seq-of-str', Seq(seq.decode('ascii')))]
+		spec = gk.KmerSpec(k, 'ACGT'[:pl] if pl <= 4 else 'A' * pl)
+		for form, obj in forms:
+			ctx.count('stream:match:' + form + (':reverse' if rev else ':forward'))
+			m = gk.KmerMatch(spec, obj, pos, rev)
+			gk_ = _canon_bytes(_call(m.kmer))
+			gi = _canon_int(_call(m.kmer_index))
+			if gk_ != want_kmer or gi != want_idx:
+				ctx.violation('match', c, f'KmerMatch(k={k}, prefix length {pl}, {form} sequence, pos={pos}, reverse={rev}) on window {w!r}: '
+				              f'kmer() = {gk_!r}, kmer_index() = {gi!r}; the property says {want_kmer!r} / {want_idx!r}',
+				              impl=[gk_, gi], spec=[want_kmer, want_idx])
+				break
+
+
+def k_acc(ctx, cases):
+	"""KmerAccumulator.add_kmer: valid k-mers are added under their base-4 index, anything else is ignored"""
+	from gambit.sigs.calc import SetAccumulator, ArrayAccumulator
+	from Bio.Seq import Seq
+	for c in cases:
+		k = c['k']
+		kms = [bytes.fromhex(h) for h in c['kmers']]
+		want = sorted({_py_enc(b) for b in kms if _py_enc(b) != REJ})
+		ctx.case(c, nontrivial=len(want) >= 2)
+		ctx.count('stream:acc:' + c['cls'])
+		acc = (SetAccumulator if c['cls'] == 'set' else ArrayAccumulator)(k)
+		err = None
+		for j, b in enumerate(kms):
+			obj = b
+			if all(x < 128 for x in b):
+				obj = (b, bytearray(b), b.decode('ascii'), Seq(b.decode('ascii')))[j % 4]
+			r = _call(acc.add_kmer, obj)
+			if _is_err(r):
+				err = f'add_kmer({obj!r}) raised {r[1]}'
+				break
+		got = err or [int(x) for x in acc.signature()]
+		members = err or sorted(int(x) for x in acc)
+		if got != want or members != want:
+			ctx.violation('acc', c, f'{c["cls"]} accumulator k={k} after add_kmer of {kms!r}: signature {got!r}, members {members!r}; '
+			              f'base-4 indices of the valid k-mers are {want!r}', impl=got, spec=want)
+
+
+# ------------------------------------------------------------------------------------------------------
+# (audit) long inputs
+
+
+def k_long(ctx, cases):
+	"""inputs longer than the rc / enc streams produce: revcomp of up to 2^17+1 bytes, and over-long k-mers (must be
+	rejected whatever they contain).  Up to 4096 bytes the Coq specification is evaluated too; beyond that the
+	extracted functions are quadratic and the case is judged by the property predicate alone."""
+	import gambit.kmers as gk
+	import gambit.seq as gs
+	from gambit._cython import kmers as ck
+	import random
+	bs = []
+	for c in cases:
+		r = random.Random(c['seed'])
+		bs.append(bytes(r.choices(bytes.fromhex(c['alphabet']), k=c['n'])))
+	small = [i for i, b in enumerate(bs) if len(b) <= 4096] if ctx.model_ok else []
+	ans = ctx.model([x for i in small for x in ((713, bs[i]), (711, bs[i]), (704, bs[i]), (701, bs[i]), (702, bs[i]))])
+	ans = {i: ans[5 * j:5 * j + 5] for j, i in enumerate(small)}
+	for i, c in enumerate(cases):
+		b, n, alpha = bs[i], c['n'], bytes.fromhex(c['alphabet'])
+		ctx.case(c, nontrivial=True)
+		e_rc = _py_rc(b)
+		e1, e2 = _py_enc(b), _py_enc(e_rc)
+		if i in ans:
+			a = ans[i]
+			coq = (bytes(a[0]), a[1][0] if a[1] else REJ)
+			if coq != (e_rc, e1):
+				ctx.broke('harness predicate vs Coq specification (long)', f'case {c}: python={(e_rc[:40], e1)!r} coq={(coq[0][:40], coq[1])!r}')
+				continue
+			mrc = _res(a[2])
+			mrc = bytes(mrc) if isinstance(mrc, list) else mrc
+			m1, m2 = _res(a[3]), _res(a[4])
+			m1, m2 = (REJ if m1 == 'ValueError' else m1), (REJ if m2 == 'ValueError' else m2)
+			if (mrc, m1, m2) != (e_rc, e1, e2):
+				ctx.broke('correspondence long (kmers.pyx as translated)', f'case {c}: model enc/enc_rc = {m1!r}/{m2!r} expected {e1!r}/{e2!r}; '
+				          f'revcomp equal: {mrc == e_rc}')
+		bad = None
+		for form, obj in (('bytes', b), ('bytearray', bytearray(b)), ('memoryview', memoryview(b))):
+			ctx.count('stream:long:' + c['what'] + ':' + form)
+			for api, fn in (('gambit.seq.revcomp', gs.revcomp), ('_cython.kmers.revcomp', ck.revcomp)):
+				got = _canon_bytes(_call(fn, obj))
+				if got != e_rc:
+					if isinstance(got, bytes) and len(got) == len(e_rc):
+						p = next(j for j in range(n) if got[j] != e_rc[j])
+						bad = bad or f'{api}({form}, {n} bytes): output byte {p} is {got[p]:#x}, mirrored complement of input byte {n - 1 - p} ({b[n - 1 - p]:#x}) is {e_rc[p]:#x}'
+					else:
+						bad = bad or f'{api}({form}, {n} bytes) = {got if not isinstance(got, bytes) else ("%d bytes" % len(got))!r}'
+				elif _canon_bytes(_call(fn, got)) != b:
+					bad = bad or f'{api}({form}, {n} bytes): not an involution'
+			for api, fn, want in (('_cython.kmers.kmer_to_index', ck.kmer_to_index, e1), ('_cython.kmers.kmer_to_index_rc', ck.kmer_to_index_rc, e2),
+			                      ('gambit.kmers.kmer_to_index', gk.kmer_to_index, e1), ('gambit.kmers.kmer_to_index_rc', gk.kmer_to_index_rc, e2)):
+				if form == 'memoryview' and api.startswith('gambit.kmers'):
+					continue  # not a DNASeq type
+				got = _canon_int(_call(fn, obj))
+				if got != want:
+					bad = bad or f'{api}({form}, {n} bytes over {alpha[:12]!r}) = {got!r}, the property says {want!r}'
+		if bad:
+			ctx.violation('long', c, bad)
+
+
+KINDS = {'enc': k_enc, 'dec': k_dec, 'rc': k_rc, 'forms': k_forms, 'text': k_text, 'decforms': k_decforms,
+         'match': k_match, 'acc': k_acc, 'long': k_long}
 
 
 def generate(ctx):
@@ -229,3 +712,121 @@ def generate(ctx):
 	for idx, k in [(-1, 3), (2 ** 64, 3), (2 ** 64 - 1, 32), (5, -1), (0, 0), (2 ** 70, 0), (4 ** 5, 5), (4 ** 5 + 7, 5)]:
 		ctx.count('stream:malformed')
 		yield 'dec', [idx, k]
+	# ------------------------------------------------------------------------------------------------
+	# streams added by the coverage audit (see the table in the module docstring)
+	# the property says "all k-mers for k<=8": k=8 (upper case) also in the quick tier; revcomp up to k=7 (8 thorough)
+	if kmax < 8:
+		for t in itertools.product(NUC, repeat=8):
+			yield 'enc', bytes(t).hex()
+		ctx.count('stream:exhaustive-kmers', 4 ** 8)
+		ctx.extra['exhaustive_scope'] = ('all k-mers k<=8 (first letter both cases for k<=7), all byte strings of length<=2, '
+		                                 'all indices for k<=6, all 8^k upper/lower-case patterns for k<=4')
+	else:
+		ctx.extra['exhaustive_scope'] += ', all 8^k upper/lower-case patterns for k<=4'
+	for k in range(7, ctx.pick(7, 8) + 1):
+		for t in itertools.product(NUC, repeat=k):
+			yield 'rc', bytes(t).hex()
+		ctx.count('stream:exhaustive-kmers-revcomp', 4 ** k)
+	# "input case is ignored" / "preserving case": every upper/lower pattern for k <= 4, all-lower and alternating for k <= 6
+	for k in range(1, 5):
+		for t in itertools.product(NUCS, repeat=k):
+			yield 'enc', bytes(t).hex()
+			yield 'rc', bytes(t).hex()
+		ctx.count('stream:allcase-kmers', 8 ** k)
+	for k in range(5, 7):
+		for t in itertools.product(NUC, repeat=k):
+			b = bytes(t)
+			yield 'enc', b.lower().hex()
+			yield 'enc', bytes(c | 0x20 if j % 2 else c for j, c in enumerate(b)).hex()
+		ctx.count('stream:lower-and-alternating-kmers', 2 * 4 ** k)
+
+	def rand_kmer(kmin=1, kmax_=36, p_bad=0.25):
+		k = rng.randint(kmin, kmax_)
+		b = bytearray(rng.choice(NUCS) for _ in range(k))
+		if k and rng.random() < p_bad:
+			b[rng.randrange(k)] = rng.choice([rng.randrange(256), ord('N'), ord('n'), 0xC1, 0xE1, 0xD4, 0x61 ^ 0x80, 0x21, 0x00, 0x55, 0x75])
+		return bytes(b)
+
+	def form_case(b):
+		ctx.count('stream:forms')
+		return 'forms', dict(kmer=bytes(b).hex(), stride=rng.randint(2, 5), off=rng.randint(0, 3))
+
+	# input forms: empty, every single byte, all k-mers k<=3, the property's boundary k-mers for every k up to 34,
+	# random k-mers (mixed case, some with one foreign byte, some too long), random byte pairs
+	yield form_case(b'')
+	for a in range(256):
+		yield form_case(bytes([a]))
+	for k in range(2, 4):
+		for t in itertools.product(NUC, repeat=k):
+			yield form_case(bytes(t))
+	for k in range(1, 35):
+		for b in (b'A' * k, b'T' * k, b'A' * (k - 1) + b'T', b'T' + b'A' * (k - 1), b't' * k, bytes(rng.choice(NUCS) for _ in range(k))):
+			yield form_case(b)
+	for _ in range(ctx.pick(2500, 25000)):
+		yield form_case(rand_kmer())
+	for _ in range(ctx.pick(800, 8000)):
+		yield form_case(bytes([rng.randrange(256), rng.randrange(256)]))
+	# str k-mers with code points that are not bytes: low byte / look-alike / case-mapping of a nucleotide letter
+	odd = [0x100 + c for c in NUCS] + [0x4100 + c for c in NUC] + [0xFF21, 0xFF23, 0xFF27, 0xFF34, 0xFF41, 0x410, 0x421, 0x422, 0x391, 0x3A4,
+	                                                                0xC1, 0xE1, 0xC7, 0xE7, 0x1D00, 0x2C6F, 0x0250, 0x10000 + 65, 0x1F9EC]
+	for _ in range(ctx.pick(500, 5000)):
+		t = list(rand_kmer(1, 33, 0.0))
+		r = rng.random()
+		if r < 0.75:
+			t[rng.randrange(len(t))] = rng.choice(odd)
+		elif r < 0.85:
+			t.insert(rng.randrange(len(t) + 1), rng.choice(odd + [0x20, 0x0A, 0x00]))
+		ctx.count('stream:text')
+		yield 'text', dict(text=t)
+	# index_to_kmer: index and k in every integer form
+	for k in range(0, 4):
+		for idx in range(4 ** k):
+			ctx.count('stream:decforms')
+			yield 'decforms', [idx, k]
+	for k in range(1, 33):
+		for idx in (0, 4 ** k - 1, 1, 4 ** (k - 1), 3 * 4 ** (k - 1), (4 ** k) // 3, 4 ** k // 2 - 1, 4 ** k // 2):
+			ctx.count('stream:decforms')
+			yield 'decforms', [idx, k]
+	for _ in range(ctx.pick(2500, 25000)):
+		k = rng.randint(0, 32)
+		ctx.count('stream:decforms')
+		yield 'decforms', [rng.randrange(4 ** k) if rng.random() < 0.7 else min(4 ** k - 1, 2 ** rng.randint(0, 2 * k) - rng.randint(0, 1)), k]
+	# KmerMatch windows
+	for _ in range(ctx.pick(2500, 25000)):
+		k, pl = rng.randint(1, 34), rng.randint(0, 6)
+		ln = k + pl + rng.choice([0, 0, 1, rng.randint(0, 40)])
+		alpha = rng.choice([NUCS, NUCS, NUC, NUCS + b'Nn', NUCS * 4 + b'N-\x00\xff\xc1' + bytes([rng.randrange(256)])])
+		seq = bytes(rng.choice(alpha) for _ in range(ln))
+		rev = rng.random() < 0.5
+		lo = rng.choice([0, ln - k - pl, rng.randint(0, ln - k - pl)])
+		# forward: prefix starts at pos=lo; reverse: pos is the LAST byte of the (reverse-complemented) prefix
+		pos = lo + k + pl - 1 if rev else lo
+		ctx.count('stream:match')
+		yield 'match', dict(seq=seq.hex(), k=k, plen=pl, pos=pos, reverse=rev)
+	# accumulators: lists of k-mers with repeats, case variants of one k-mer, invalid members
+	for _ in range(ctx.pick(400, 4000)):
+		cls = rng.choice(['set', 'array'])
+		k = rng.randint(1, 8) if cls == 'array' else rng.choice([rng.randint(1, 32), 32, 31, 16, 17, 11, 12])
+		kms = []
+		for _ in range(rng.randint(0, 10)):
+			r = rng.random()
+			if kms and r < 0.3:
+				b = rng.choice(kms)
+				b = rng.choice([b, b.upper(), b.lower(), b.swapcase()])
+			else:
+				b = rand_kmer(k, k, 0.2)
+			kms.append(b)
+		ctx.count('stream:acc')
+		yield 'acc', dict(k=k, cls=cls, kmers=[b.hex() for b in kms])
+	# long inputs
+	full = bytes(range(256)).hex()
+	lens = [rng.randint(81, 400) for _ in range(ctx.pick(40, 400))] + [1000, 2048, 4095, 4096, 4097, 32767, 32768, 65535, 65536, 65537, 131073]
+	for n in lens:
+		alpha = rng.choice([(NUCS + b'Nn-').hex(), full, NUCS.hex(), (NUCS * 8 + b'\xc1\xe1\xd4\xf4N').hex()])
+		ctx.count('stream:rc-long')
+		yield 'long', dict(what='rc', n=n, alphabet=alpha, seed=rng.randrange(2 ** 32))
+	lens = [rng.randint(41, 300) for _ in range(ctx.pick(40, 400))] + list(range(33, 41)) + [63, 64, 65, 127, 128, 129, 255, 256, 257, 1000, 4096, 65536, 65537, 70000]
+	for n in lens:
+		alpha = rng.choice([NUCS.hex(), NUC.hex(), b'A'.hex(), b'T'.hex(), b'a'.hex(), b'CG'.hex()])
+		ctx.count('stream:enc-long')
+		yield 'long', dict(what='enc', n=n, alphabet=alpha, seed=rng.randrange(2 ** 32))
